@@ -587,7 +587,7 @@ class Reentrant(Part):
     afterwards."""
     name = "reentrant"
     examples = {"quick": 300, "thorough": 6000}
-    floors = {"recursive": 0.4}
+    floors = {"recursive": 0.3}
 
     def strategy(self, tier):
         return st.fixed_dictionaries({
